@@ -270,6 +270,12 @@ pub extern "C" fn cs_setup_pool() {
     }
     cx().a = Some(AS::new(cx().pool[0].as_ref().unwrap().clone()));
 }
+/// the same plus a second container B = obj3
+#[no_mangle]
+pub extern "C" fn cs_setup_pool2() {
+    cs_setup_pool();
+    cx().b = Some(AS::new(cx().pool[3].as_ref().unwrap().clone()));
+}
 #[inline(always)]
 fn pool(i: usize) -> &'static VPtr {
     cx().pool[i].as_ref().unwrap()
@@ -349,6 +355,39 @@ pub extern "C" fn cs_final_rcu2() {
     expect_counts(f, usize::MAX);
     vassert(slots_all_empty(), 42);
     cover(13);
+}
+
+/// adversary for C08: each call is one complete write of another value
+#[no_mangle]
+pub extern "C" fn cs_adv_store() {
+    static TURN: HAtomic = HAtomic::new(0);
+    let k = TURN.peek();
+    TURN.store_ungated(1 - k);
+    a().store(pool(1 + k).clone());
+}
+/// reader bodies for C08 (need cs_setup_pool): one load / one load_full
+#[no_mangle]
+pub extern "C" fn cs_r_load_only() {
+    let g = a().load();
+    merge();
+    check_payload(&g, 1);
+    drop(g);
+    merge();
+}
+/// two writes by the other thread, so that every cell the reader looks at has seen every kind of value
+#[no_mangle]
+pub extern "C" fn cs_w_store_pool12() {
+    a().store(pool(1).clone());
+    merge();
+    a().store(pool(2).clone());
+    merge();
+}
+/// prologue: 8 guards of A itself parked (fast slots full with debts a writer will pay)
+#[no_mangle]
+pub extern "C" fn cs_fill8a_t1() {
+    for i in 0..8 {
+        cx().held1[i] = Some(a().load());
+    }
 }
 
 /// prologue of thread 1: a guard of A parked for another thread
